@@ -128,7 +128,7 @@ def recArm (i : Input) (r : Rec) : String :=
       if p.isMeta then "meta" else if p.isRemote i.self then "remote"
       else if !i.ipfsUp then "ipfs-down"
       else if r.held then (if p.direct then "pinned-direct" else "pinned-recursive")
-      else if ipfsListing r.ipfs |>.isSome then "mode-mismatch"
+      else if r.ipfs == .direct || r.ipfs == .recursive then "mode-mismatch"
       else "missing"
 
 def dedupStr : List String → List String
